@@ -649,6 +649,10 @@ func (e *Exec) typeAssert(s *State, f *Frame, in *ssa.TypeAssert) Value {
 		okT = e.c.And(e.c.Not(iv.Nil), e.c.Fresh("taok", SBool))
 		if toIface {
 			val = &IfaceV{Nil: e.c.Not(okT), ID: iv.ID}
+		} else if isScalar(in.AssertedType) && iv.ID != nil {
+			// unboxing is a function of the interface value: the same interface value asserted to the same scalar
+			// type gives the same result (and the same success flag), here and in contracts
+			okT, val = e.unboxScalar(iv, in.AssertedType)
 		} else {
 			val = e.freshValS(s, in.AssertedType, "ta")
 		}
@@ -658,6 +662,15 @@ func (e *Exec) typeAssert(s *State, f *Frame, in *ssa.TypeAssert) Value {
 	}
 	e.check(s, "typeassert", okT, in.Pos(), in)
 	return val
+}
+
+// unboxScalar models x.(T) for a scalar T on an interface of unknown dynamic type by uninterpreted functions of the
+// interface's identity.
+func (e *Exec) unboxScalar(iv *IfaceV, t types.Type) (*Term, *Term) {
+	name := sanitize(types.TypeString(t, nil))
+	id := e.c.Ite(iv.Nil, BVConst(0, 64), iv.ID)
+	ok := e.c.And(e.c.Not(iv.Nil), e.c.UF("isdyn_"+name, SBool, id))
+	return ok, e.c.UF("unbox_"+name, scalarSort(t), id)
 }
 
 func (e *Exec) lookup(s *State, f *Frame, in *ssa.Lookup) Value {
